@@ -383,6 +383,8 @@ def forward_contract(
 
 
 def _work(job: tuple) -> dict:
+    if job[0] == 'long':
+        return _work_long(job[1:])
     n_phys, n, length, shard, nshards, sample, seed = job
     if length < 0:
         return _work_pam(job)
@@ -456,9 +458,7 @@ def _work(job: tuple) -> dict:
                         st['samples'].append({'case': scen})
                 if n == n_phys:
                     for oname, alg in (
-                        ('default', GeneralizedSabreAlgorithm()),
-                        ('no decay, no lookahead', GeneralizedSabreAlgorithm(
-                            0.0, 1, True, 0, 0.0)),
+                        (o, mk()) for o, mk in FORWARD_OPTS.items()
                     ):
                         key = 'GeneralizedSabreAlgorithm.forward_pass'
                         st = stats.setdefault(key, {
@@ -570,7 +570,63 @@ FORWARD_OPTS = {
     'default': lambda: GeneralizedSabreAlgorithm(),
     'no decay, no lookahead': lambda: GeneralizedSabreAlgorithm(
         0.0, 1, True, 0, 0.0),
+    'decay kept across gates': lambda: GeneralizedSabreAlgorithm(
+        0.001, 5, False, 20, 0.5),
+    'decay kept, reset every swap': lambda: GeneralizedSabreAlgorithm(
+        0.01, 1, False, 2, 0.5),
 }
+
+
+def long_circuit(n: int, length: int, rng: random.Random) -> Circuit:
+    """Many far-apart two-qudit gates (and a Toffoli now and then): needs
+    more swaps over its length than the local-minimum budget of 5n."""
+    c = Circuit(n)
+    for _ in range(length):
+        r = rng.random()
+        if r < 0.1 and n >= 3:
+            c.append_gate(ToffoliGate(), rng.sample(range(n), 3))
+        elif r < 0.25:
+            c.append_gate(RZGate(), rng.randrange(n), [rng.random()])
+        else:
+            c.append_gate(CNOTGate(), rng.sample(range(n), 2))
+    return c
+
+
+def _work_long(job: tuple) -> dict:
+    n, shard, nshards, amount, seed = job
+    stats: dict[str, dict[str, Any]] = {}
+    key = 'GeneralizedSabreAlgorithm.forward_pass (long circuits)'
+    st = stats.setdefault(key, {'evaluated': 0, 'failures': [],
+                                'samples': []})
+    graphs = connected_graphs(n)
+    for t in range(amount):
+        if t % nshards != shard:
+            continue
+        s = seed * 7919 + 31 * n + t
+        rng = random.Random(s)
+        edges = rng.choice(graphs)
+        length = rng.randint(6 * n, 12 * n)
+        pre = long_circuit(n, length, rng)
+        for oname in FORWARD_OPTS:
+            st['evaluated'] += 1
+            try:
+                errs = forward_contract(pre, edges, n, FORWARD_OPTS[oname]())
+            except Exception as e:     # noqa: BLE001
+                errs = ['raised %s: %s' % (type(e).__name__, e)]
+            if errs and len(st['failures']) < 3:
+                st['failures'].append({
+                    'function': key, 'kind': 'ensures',
+                    'clause': errs[0][:300],
+                    'scenario': '%d qudits, edges %s, %d random gates (seed '
+                                '%d), options: %s' % (
+                                    n, sorted(edges), length, s, oname),
+                    'args': oname, 'observed': errs[0],
+                    'case': {'what': 'long', 'n': n, 'seed': s,
+                             'options': oname}})
+            if not st['samples']:
+                st['samples'].append({'case': '%d qudits, %d gates' % (
+                    n, length)})
+    return stats
 
 
 def replay(repo: str, rep: dict) -> dict | None:
@@ -581,6 +637,17 @@ def replay(repo: str, rep: dict) -> dict | None:
         return None
     logging.getLogger('bqskit').setLevel(logging.ERROR)
     n = case['n']
+    if case['what'] == 'long':
+        rng = random.Random(case['seed'])
+        edges = rng.choice(connected_graphs(n))
+        pre = long_circuit(n, rng.randint(6 * n, 12 * n), rng)
+        try:
+            errs = forward_contract(
+                pre, edges, n, FORWARD_OPTS[case['options']]())
+        except Exception as e:     # noqa: BLE001
+            errs = ['raised %s: %s' % (type(e).__name__, e)]
+        return {'case': case, 'edges': sorted(edges),
+                'reproduced': bool(errs), 'errors': errs[:5]}
     edges = frozenset(tuple(e) for e in case['edges'])
     alpha = pam_alphabet(n) if case['what'] == 'pam' else op_alphabet(n)
     pre = Circuit(n)
@@ -635,6 +702,14 @@ def run(repo: str, tier: str, seed: int, jobs: int) -> dict:
                                   abs(length), sample * 100, seed))
         for sh in range(jobs):
             work.append((n_phys, n, length, sh, jobs, sample, seed))
+    n_long = 48 if tier == 'quick' else 400
+    for n in (3, 4, 5):
+        desc.append('long circuits: %d seeded circuits of 6n-12n random '
+                    'gates on %d qudits, a random connected graph, %d '
+                    'parameter settings of the algorithm (seed %d)' % (
+                        n_long, n, len(FORWARD_OPTS), seed))
+        for sh in range(jobs):
+            work.append(('long', n, sh, jobs, n_long, seed))
     if jobs > 1:
         with mp.get_context('fork').Pool(jobs) as pool:
             parts = pool.map(_work, work, chunksize=1)
